@@ -333,9 +333,24 @@ static void case_c09(vrng *r, uint64_t global)
     ctx_alloc(&c, &d, depth);
     ctx_fresh(&c, r);
     binson_parser *p = c.p;
-    const char *trip = NULL;
+    const char *trip = NULL, *silent = NULL;
     bool ok = root == K_OBJ ? binson_parser_init_object(p, c.buf, c.n) : binson_parser_init_array(p, c.buf, c.n);
     if (!ok) { if (p->error_flags != BINSON_ERROR_NONE) trip = "init"; }
+    else if (vrn(r, 5) == 0 && !vrecognise(d.p, d.n, root, depth).ok) {
+        /* verify-based calls that reject the bytes must leave the indicator set (a too small text buffer alone is not an error) */
+        const char *which = NULL;
+        if (vrn(r, 2)) { if (!binson_parser_verify(p) && p->error_flags == BINSON_ERROR_NONE) which = "verify"; trip = "verify on malformed bytes"; }
+        else { size_t sz = 0; char tb[64]; bool big = vrn(r, 2); sz = big ? sizeof tb : 0; if (!binson_parser_to_string(p, big ? tb : NULL, &sz, false) && p->error_flags == BINSON_ERROR_NONE) which = "to_string"; trip = "to_string on malformed bytes"; }
+        if (which) {
+            vbuf o; memset(&o, 0, sizeof o);
+            vb_printf(&o, "%s rejected malformed bytes (returned false) but error_flags is NONE afterwards: the rejection is not detectable by a check of the indicator\nmax_depth=%d, %zu bytes (%s): ", which, depth, d.n, origin);
+            vb_hex(&o, d.p, d.n, 300);
+            char sig[100]; snprintf(sig, sizeof sig, "c09p:rejects-without-error:%s", which);
+            vw_violation(sig, "%s", vb_cstr(&o)); vb_free(&o);
+            trip = NULL;
+        }
+        vw_count("verify_based_rejections_checked", 1);
+    }
     else {
         /* random adaptive walk, watching the public error field after every call */
         int stack[300]; int sp = 0;
@@ -365,7 +380,7 @@ static void case_c09(vrng *r, uint64_t global)
                 if (!got || vrn(r, 15) == 0) {
                     bool l = top == K_OBJ ? binson_parser_leave_object(p) : binson_parser_leave_array(p);
                     if (p->error_flags != BINSON_ERROR_NONE) { trip = top == K_OBJ ? "leave_object" : "leave_array"; break; }
-                    if (!l) break;
+                    if (!l) { silent = top == K_OBJ ? "leave_object" : "leave_array"; break; }
                     sp--; continue;
                 }
                 binson_type t = binson_parser_get_type(p);
@@ -374,15 +389,24 @@ static void case_c09(vrng *r, uint64_t global)
                     if (a < 6 && sp < 299) {
                         bool e = t == BINSON_TYPE_OBJECT ? binson_parser_go_into_object(p) : binson_parser_go_into_array(p);
                         if (p->error_flags != BINSON_ERROR_NONE) { trip = "go_into"; break; }
-                        if (!e) break;
+                        if (!e) { silent = "go_into"; break; }
                         stack[sp++] = t == BINSON_TYPE_OBJECT ? K_OBJ : K_ARR;
                     } else if (a < 8) {
-                        bbuf raw; raw.bptr = NULL; raw.bsize = 0; binson_parser_get_raw(p, &raw);
+                        bbuf raw; raw.bptr = NULL; raw.bsize = 0; bool gr = binson_parser_get_raw(p, &raw);
                         if (p->error_flags != BINSON_ERROR_NONE) { trip = "get_raw"; break; }
+                        if (!gr) { silent = "get_raw"; break; }
                     }
                 }
             }
         }
+    }
+    if (silent && !trip) {
+        /* a protocol-following enter / leave / get_raw on a container failed but left no error: a single check at the end would not see it */
+        vbuf o; memset(&o, 0, sizeof o);
+        vb_printf(&o, "%s on a container the parser itself reported returned false with error_flags=NONE: the failure is not detectable by a check at the end\nmax_depth=%d, %zu bytes (%s): ", silent, depth, d.n, origin);
+        vb_hex(&o, d.p, d.n, 300);
+        char sig[100]; snprintf(sig, sizeof sig, "c09p:failed-without-error:%s", silent);
+        vw_violation(sig, "%s", vb_cstr(&o)); vb_free(&o);
     }
     if (trip) {
         char cn[64]; snprintf(cn, sizeof cn, "errors_%s", verr_name((int)p->error_flags)); vw_count(cn, 1);
